@@ -12,8 +12,11 @@
       extraction goes on, as pax does);
     - a regular file over an existing regular file replaces its content;
     - a regular file over a directory fails, and so does the extraction;
-    - links and special files are outside this reference: `extract` answers
-      `none`.
+    - a symbolic link or a special file is created when its name is new (the
+      link target is stored the way the view spells it, see `normLink`); a link
+      is never followed: a member whose directory path holds a symbolic link, a
+      regular file over a link or special file, and anything over an existing
+      link make `extract` answer `none`, and so do hard links.
 
   Core Lean only.
 -/
@@ -24,6 +27,8 @@ namespace ClairModel.TarFS
 inductive XNode where
   | dir
   | file (data : Bytes)
+  | sym (target : Bytes)
+  | special
 deriving DecidableEq, Repr
 
 /-- The extracted tree: name ↦ node. -/
@@ -46,7 +51,7 @@ def xMkdirs : XTree → List Bytes → Option XTree
     match alGet t d with
     | none => xMkdirs (alSet t d .dir) ds
     | some .dir => xMkdirs t ds
-    | some (.file _) => none
+    | some _ => none
 
 /-- Extraction of one member. -/
 def xInsert (t : XTree) (m : Member) : Option XTree :=
@@ -63,9 +68,18 @@ def xInsert (t : XTree) (m : Member) : Option XTree :=
       | none => none
       | some t1 =>
         match alGet t1 n with
-        | some .dir => none
-        | _ => some (alSet t1 n (.file m.data))
-  | _ => none
+        | none => some (alSet t1 n (.file m.data))
+        | some (.file _) => some (alSet t1 n (.file m.data))
+        | some _ => none
+  | .sym =>
+    match alGet t n with
+    | some _ => none
+    | none => (xMkdirs t (prefixesOf n).dropLast).map fun t1 => alSet t1 n (.sym (normLink .sym n m.link))
+  | .special =>
+    match alGet t n with
+    | some _ => none
+    | none => (xMkdirs t (prefixesOf n).dropLast).map fun t1 => alSet t1 n .special
+  | .link => none
 
 def xRoot : XTree := [(dotP, .dir)]
 
